@@ -220,6 +220,10 @@ def rand_opts(rng, profile, level):
 
 def rand_beh(rng, profile):
     b = {"cost": rng.choice([30, 50, 100, 250, 1000]), "step": rng.choice([0, 0, 1, 7]), "mod": rng.choice([1, 2, 3]), "mode": rng.choice([0, 0, 0, 1, 2])}
+    if rng.random() < profile.get("p_free_calls", 0.0):
+        # calls that cost nothing: with a picosecond-grained counter a whole sample is shorter than its iteration count, so the
+        # per-iteration time is exactly 0 (time cells "0 ns", throughput "inf")
+        b["cost"], b["step"] = 0, 0
     if rng.random() < profile.get("p_alloc", 0.2):
         b["an"] = rng.choice([1, 2, 3])
         b["az"] = rng.choice([8, 64, 1000, 5000])
@@ -341,6 +345,16 @@ def gen_spec(rng, profile=None):
         du.add(display)
         line_no = rng.randrange(1, 80) if rng.random() < 0.8 else line_no
         b = Bench(bid, m, raw, display, rng.choice(files), line_no, rng.choice([1, 1, 5, 9]), rand_opts(rng, profile, "bench"), rand_beh(rng, profile))
+        if b.beh["cost"] == 0:
+            # free calls want an explicit sample size above the read cost, a counter to show "inf", and a picosecond clock
+            b.opts = dict(b.opts or {})
+            b.opts.update({"ss": rng.choice([3, 5, 8]), "sc": rng.choice([1, 2, 3, 4])})
+            b.opts["c%d" % rng.randrange(4)] = rng.choice([1, 5, 1000])
+            for k in ("mt", "xt", "th", "_thform", "_thraw"):
+                b.opts.pop(k, None)
+            b.beh["mode"] = rng.choice([0, 1])
+            sp.clock = (10 ** 12, sp.clock[1], 1, sp.clock[3])
+            sp.clock_os = False
         r = rng.random()
         if clash and r >= profile.get("p_args", 0.25):
             r = 1.0  # a generic function would share its node with the module: keep twins plain or args
@@ -375,6 +389,30 @@ def gen_spec(rng, profile=None):
         x, y = rng.sample(argb, 2)
         x.argtype, x.args = "i64", list(rng.choice([["-1", "-9223372036854775808", "5", "-2"], ["-2", "-1", "7"]]))
         y.argtype, y.args = "u64", list(rng.choice([["18446744073709551615", "9223372036854775808", "5"], ["18446744073709551614", "18446744073709551615"]]))
+    if rng.random() < profile.get("p_wide_counts", 0.0):
+        # sample_count and sample_size that are each fine as u32 but whose product needs more than 32 bits, set at different
+        # levels (the size comes from the runner, see gen_config), cut short by a 1 ns max_time: exactly one round runs
+        cands = [b for b in items if isinstance(b, Bench) and b.kind == "plain"]
+        if cands:
+            b = rng.choice(cands)
+            b.beh = {"cost": 1, "step": 0, "mod": 1, "mode": 0}
+            b.opts = {"sc": rng.choice([65536, 1 << 20]), "xt": 1}
+            for other in items:
+                # everything else in this registry stays small whatever sample size the runner sets
+                if isinstance(other, Bench) and other is not b:
+                    other.opts = dict(other.opts or {})
+                    other.opts["sc"] = min(other.opts.get("sc", 2), 2)
+                    other.opts.setdefault("ss", 1)
+                    for k in ("mt", "xt"):
+                        other.opts.pop(k, None)
+                    other.beh["cost"] = min(other.beh.get("cost", 30), 100)
+                    other.beh.pop("an", None)
+                elif isinstance(other, Group) and other.opts:
+                    for k in ("mt", "xt", "sc"):
+                        other.opts.pop(k, None)
+            sp.clock = (10 ** 9, 1, 1, 1000)
+            sp.clock_os = False
+            sp.wide_counts = True
     if rng.random() < profile.get("p_budget_scenario", 0.0):
         # a benchmark whose number of rounds depends strongly on HOW its time budget is accounted: expensive input generation
         # outside the timed section, cheap calls, a max_time between the two accountings, skip_ext_time set by attribute
